@@ -1,38 +1,9 @@
 ------------------------------- MODULE MC_C19 -------------------------------
 (* Cases for C19: expressions of every serialisable kind, alone and with    *)
 (* shared subexpressions.                                                   *)
-EXTENDS Integers, Sequences, FiniteSets, TLC, Json, IOUtils, SequencesExt, Randomization, Term
+EXTENDS Integers, Sequences, FiniteSets, TLC, Json, IOUtils, SequencesExt, Randomization, ExprPool
 Thorough == "TIER" \in DOMAIN IOEnv /\ IOEnv.TIER = "thorough"
 Sub(S, n) == IF Thorough \/ Cardinality(S) <= n THEN S ELSE RandomSubset(n, S)
-x == TSym("x")
-y == TSym("y")
-B(k, a, b) == TOp(k, <<a, b>>)
-U(k, a) == TOp(k, <<a>>)
-Nums == {TInt(0), TInt(1), TInt(-7), TInt(123456789), B("pow", TInt(10), TInt(30)), U("neg", B("pow", TInt(7), TInt(45))), TRat(1, 2), TRat(-22, 7), B("div", B("pow", TInt(3), TInt(40)), B("pow", TInt(2), TInt(70))),
-         TI, TComplex(TInt(2), TInt(-3)), TComplex(TRat(1, 2), TRat(2, 3)), TDbl(1, 3, -1), TDbl(-1, 1, -20), TDbl(1, 1, 0), TDblZero(1), TDblZero(-1),
-         T("Dbl", <<>>, "inf", 1, 0), T("Dbl", <<>>, "inf", -1, 0), T("Dbl", <<>>, "nan", 1, 0), TCDbl(TDbl(1, 1, 0), TDbl(-1, 5, -3)), TInf(1), TInf(-1), TInf(0), TNaN,
-         B("div", TDbl(1, 1, 0), TInt(3)), B("mul", TDbl(1, 1, 0), TConst("pi"))}
-Atoms == {x, y, TSym("a_long_symbol_name"), TSym(""), TConst("pi"), TConst("E"), TConst("EulerGamma"), TConst("Catalan"), TConst("GoldenRatio")}
-F1 == {"sin", "cos", "tan", "cot", "sec", "csc", "asin", "acos", "atan", "acot", "asec", "acsc", "sinh", "cosh", "tanh", "coth", "sech", "csch", "asinh", "acosh", "atanh", "acoth",
-       "asech", "acsch", "log", "abs", "sign", "floor", "ceiling", "truncate", "conjugate", "gamma", "loggamma", "zeta", "dirichlet_eta", "erf", "erfc", "lambertw", "exp", "sqrt", "primepi", "primorial", "digamma"}
-F2 == {"atan2", "beta", "polygamma", "kronecker_delta", "lowergamma", "uppergamma", "zeta2", "max", "min"}
-Arith == {B(k, a, b) : k \in {"add", "mul", "pow", "sub", "div"}, a, b \in {x, y, TInt(2), TRat(1, 2), TI, TDbl(1, 3, -1)}}
-Funs == {U(f, a) : f \in F1, a \in {x, B("add", x, y), TRat(1, 3)}} \cup {B(f, a, b) : f \in F2, a, b \in {x, y, TInt(2)}}
-        \cup {TFn("f", <<x>>), TFn("g", <<x, y, TInt(1)>>), TOp("levi_civita", <<x, y, TInt(1)>>), TOp("max", <<x, y, TInt(3)>>), U("unevaluated_expr", B("add", x, x))}
-Rel == {B(r, x, y) : r \in {"Lt", "Le", "Eq", "Ne"}} \cup {B("Lt", x, TInt(0)), T("True", <<>>, "", 0, 0), T("False", <<>>, "", 0, 0)}
-Logic == {TOp(k, <<B("Lt", x, y), B("Le", y, TInt(1))>>) : k \in {"and", "or", "xor"}} \cup {U("not", B("Eq", x, y)), TOp("and", <<B("Lt", x, y), TOp("or", <<B("Lt", y, TInt(0)), B("Eq", x, TInt(1))>>)>>)}
-Iv(a, b, lo, ro) == T("interval", <<a, b>>, "", lo, ro)
-Sets == {Iv(TInt(0), TInt(1), 0, 0), Iv(TInt(-1), TInf(1), 1, 1), TOp("finiteset", <<x, TInt(1), TRat(1, 2)>>), TOp("union", <<Iv(TInt(0), TInt(1), 0, 0), TOp("finiteset", <<TInt(5)>>)>>),
-         TOp("Reals", <<>>), TOp("Integers", <<>>), TOp("Rationals", <<>>), TOp("Complexes", <<>>), TOp("Naturals", <<>>), TOp("Naturals0", <<>>), TOp("EmptySet", <<>>), TOp("UniversalSet", <<>>),
-         TOp("imageset", <<x, B("pow", x, TInt(2)), TOp("Integers", <<>>)>>), TOp("conditionset", <<x, B("Lt", x, y)>>), B("contains", x, Iv(TInt(0), TInt(1), 0, 0)),
-         TOp("complement", <<TOp("Reals", <<>>), TOp("finiteset", <<x>>)>>), TOp("intersection", <<TOp("imageset", <<x, B("pow", x, TInt(2)), TOp("Integers", <<>>)>>), Iv(TInt(0), TInt(9), 0, 0)>>)}
-Calc == {T("diff", <<TFn("f", <<x>>), x>>, "", 1, 0), T("diff", <<TFn("f", <<B("pow", x, TInt(2))>>), x>>, "", 1, 0), T("diff", <<T("diff", <<TFn("g", <<x, y>>), x>>, "", 1, 0), y>>, "", 1, 0),
-         T("diff", <<U("abs", x), x>>, "", 1, 0), TOp("piecewise", <<x, B("Lt", x, TInt(0)), B("pow", x, TInt(2)), T("True", <<>>, "", 0, 0)>>),
-         T("subs", <<T("diff", <<TFn("f", <<x>>), x>>, "", 1, 0), x, B("add", y, TInt(1))>>, "", 1, 0)}
-\* shared subexpressions: the same object in several places
-Shared == {TOp("add", <<U("sin", s), U("cos", s), s>>) : s \in {B("add", x, y), B("pow", x, y), U("exp", B("mul", x, y))}}
-          \cup {TOp("mul", <<U("f1", s), B("pow", s, TInt(2))>>) : s \in {B("add", x, TInt(1))}} \cup {B("pow", U("sin", B("add", x, y)), U("sin", B("add", x, y)))}
-Pool == Nums \cup Atoms \cup Arith \cup Funs \cup Rel \cup Logic \cup Sets \cup Calc \cup Shared
 Cases == {[op |-> "serial", ts |-> <<a>>] : a \in Pool} \cup {[op |-> "serial", ts |-> <<a, b, c>>] : a, b, c \in Sub(Pool, 9)}
          \cup {[op |-> "serial", ts |-> <<TOp(k, <<a, b>>)>>] : k \in {"add", "mul", "pow"}, a \in Sub(Pool \ (Rel \cup Logic \cup Sets), 25), b \in Sub(Nums \cup Funs, 12)}
 ASSUME PrintT(<<"cases", Cardinality(Cases)>>)
